@@ -358,6 +358,121 @@ let milu_parse args =
         | PPanic -> raise Model_panic)
   | _ -> "BAD-ARGS"
 
+(* ---- milu evaluator ------------------------------------------------------------------ *)
+
+exception Opaque
+
+let ostring_of_bytes (b : n list) : String.t = String.concat "" (List.map (fun x -> String.make 1 (Char.chr (int_of_n x))) b)
+let bytes_of_ostring (s : String.t) : n list = List.init (String.length s) (fun i -> n_of_int (Char.code s.[i]))
+
+(* oracle for the regex crate: only patterns without metacharacters are computed *)
+let regex_oracle (p : n list) (t : n list) : bool option =
+  let ps = ostring_of_bytes p and ts = ostring_of_bytes t in
+  let plain c = (c >= 'a' && c <= 'z') || (c >= 'A' && c <= 'Z') || (c >= '0' && c <= '9') || c = ' ' || c = '_' || c = '-' || c = ':' || c = '/' in
+  if not (String.for_all plain ps) then raise Opaque
+  else
+    let lp = String.length ps and lt = String.length ts in
+    let rec go i = if i + lp > lt then false else if String.sub ts i lp = ps then true else go (i + 1) in
+    Some (go 0)
+
+let parse_v4_text (s : String.t) : int option =
+  match String.split_on_char '.' s with
+  | [ a; b; c; d ] -> (
+      let oct x =
+        let l = String.length x in
+        if l = 0 || l > 3 || (l > 1 && x.[0] = '0') || not (String.for_all (fun c -> c >= '0' && c <= '9') x) then None
+        else let v = int_of_string x in if v <= 255 then Some v else None
+      in
+      match (oct a, oct b, oct c, oct d) with
+      | Some a, Some b, Some c, Some d -> Some ((((a * 256) + b) * 256 + c) * 256 + d)
+      | _ -> None)
+  | _ -> None
+
+(* oracle for IpAddr::from_str + AnyIpCidr::from_str; the containment itself is the Coq function *)
+let cidr_oracle (ip : n list) (cidr : n list) : bool =
+  let ips = ostring_of_bytes ip and cs = ostring_of_bytes cidr in
+  if String.contains ips ':' || String.contains cs ':' then raise Opaque
+  else
+    match parse_v4_text ips with
+    | None -> false
+    | Some a -> (
+        if cs = "any" then true
+        else
+          let net, len =
+            match String.index_opt cs '/' with
+            | None -> (cs, Some 32)
+            | Some i ->
+                let l = String.sub cs (i + 1) (String.length cs - i - 1) in
+                ( String.sub cs 0 i,
+                  if l <> "" && String.length l <= 3 && String.for_all (fun c -> c >= '0' && c <= '9') l then Some (int_of_string l) else None )
+          in
+          match (parse_v4_text net, len) with
+          | Some nv, Some l when l <= 32 ->
+              if x_cidr_net_ok (n_of_int 32) (n_of_int l) (n_of_int nv) then x_cidr_contains (n_of_int 32) (n_of_int l) (n_of_int nv) (n_of_int a)
+              else false
+          | _ -> false)
+
+let rec show_ty = function
+  | TyStr -> "string" | TyInt -> "integer" | TyBool -> "boolean"
+  | TyArr t -> "[" ^ show_ty t ^ "]"
+  | TyTup l -> "(" ^ String.concat "," (List.map show_ty l) ^ ")"
+  | TyAny -> "any"
+  | _ -> "native"
+
+let show_value = function
+  | VInt z -> Printf.sprintf "(int %s)" (int_of_z z)
+  | VBool b -> Printf.sprintf "(bool %b)" b
+  | VStr s -> if List.exists (fun x -> int_of_n x = 255) s then raise Opaque else Printf.sprintf "(str %s)" (hex s)
+  | VArr l -> sexp (EArr l)
+  | VTup l -> sexp (ETup l)
+  | _ -> raise Opaque
+
+let err_class e = match int_of_n e with 1 -> "type" | 2 -> "arith" | 3 -> "index" | 4 -> "regex" | 5 -> "parse" | _ -> "FUEL"
+
+let parse_addr_obj (spec : String.t) host ty text port_text =
+  let kind = match spec.[0] with 'D' -> 3 | '4' -> 1 | '6' -> 2 | _ -> 0 in
+  let port = match int_of_string_opt (ostring_of_bytes (unhex port_text)) with Some p -> p | None -> 0 in
+  { a_kind = n_of_int kind; a_host = unhex host; a_port = (if port = 0 then Z0 else Zpos (pos_of_int port));
+    a_type = unhex ty; a_text = unhex text }
+
+let milu_eval args =
+  match args with
+  | h :: rest -> (
+      let src = unhex h in
+      if List.exists (fun c -> int_of_n c = 96) src || not (utf8_valid src) then "OPAQUE"
+      else
+        let rq =
+          match rest with
+          | [ l; c; _f; s; t; feat; sh; st; sp; stx; th; tt; tp; ttx ] ->
+              { rq_listener = unhex l; rq_connector = (if c = "-" then [] else unhex c); rq_feature = unhex feat;
+                rq_source = parse_addr_obj s sh st stx sp; rq_target = parse_addr_obj t th tt ttx tp }
+          | _ ->
+              let z = { a_kind = n_of_int 1; a_host = bytes_of_ostring "0.0.0.0"; a_port = Z0; a_type = bytes_of_ostring "ipv4"; a_text = bytes_of_ostring "0.0.0.0:0" } in
+              { rq_listener = []; rq_connector = []; rq_feature = bytes_of_ostring "TcpForward"; rq_source = z;
+                rq_target = { a_kind = N0; a_host = bytes_of_ostring "unknown"; a_port = Z0; a_type = bytes_of_ostring "unknown"; a_text = bytes_of_ostring "unknown" } }
+        in
+        match x_milu_parse src with
+        | PPanic -> raise Model_panic
+        | PErr | PFail -> "SYNTAX"
+        | POk (e, _) -> (
+            try
+              match x_type_of regex_oracle cidr_oracle rq e with
+              | Panic _ -> "T=PANIC"
+              | Err _ -> "T=ERR"
+              | Ok t -> (
+                  let ts = show_ty t in
+                  match x_real_type_of regex_oracle cidr_oracle rq e with
+                  | Panic _ -> Printf.sprintf "T=%s RT=PANIC" ts
+                  | Err _ -> Printf.sprintf "T=%s RT=ERR" ts
+                  | Ok rt -> (
+                      let rts = show_ty rt in
+                      match x_real_value_of regex_oracle cidr_oracle rq e with
+                      | Panic _ -> Printf.sprintf "T=%s RT=%s V=PANIC" ts rts
+                      | Err c -> Printf.sprintf "T=%s RT=%s V=ERR:%s" ts rts (err_class c)
+                      | Ok v -> Printf.sprintf "T=%s RT=%s V=%s" ts rts (show_value v)))
+            with Opaque -> "OPAQUE"))
+  | _ -> "BAD-ARGS"
+
 (* ---- main ----------------------------------------------------------------------------- *)
 
 let run_line ovf line =
@@ -370,6 +485,7 @@ let run_line ovf line =
         | "frag_make" -> frag_make ovf args
         | "frag_rt" -> frag_rt ovf args
         | "milu_parse" -> milu_parse args
+        | "milu_eval" -> milu_eval args
         | "socks_req_read" -> socks_req_read args
         | "socks_req_write" -> socks_req_write args
         | "socks_resp_read" -> socks_resp_read args
